@@ -1,5 +1,6 @@
 """Property id -> (run(pid, tier), replay(pid, path))."""
 import helpers
+import corecheck
 
 ASSUME_COMMON = [
     "TLC 1.8.0 and the CommunityModules Json/IOUtils overrides are trusted",
@@ -106,6 +107,7 @@ C13 = {
 }
 
 CHECKS = {
+    **{p: (corecheck.run, corecheck.replay) for p in corecheck.CORE_PROPS if p != "C11"},
     "C13": (lambda pid, tier: helpers.run(pid, tier, C13), lambda pid, path: helpers.replay(pid, C13, path)),
     "C05": (lambda pid, tier: helpers.run(pid, tier, C05), lambda pid, path: helpers.replay(pid, C05, path)),
     "C18": (lambda pid, tier: helpers.run(pid, tier, C18), lambda pid, path: helpers.replay(pid, C18, path)),
